@@ -6,6 +6,7 @@ import ast
 from .. import callgraph, cfg as C, flow, guards, dataflow
 from ..program import AnalysisError, Program, norm, walk_local, ancestors
 from ..report import Check
+from ..types import Types
 from ..util import calls_in, fkey, is_method_call, node_calls, path_of, recv_of, where
 
 PAR = "pyrtma.parser"
@@ -149,9 +150,55 @@ def run(prog: Program, chk: Check):
                     N.bad(fkey(f, n.ast), where(f, n.ast), f"store into self.{table}[{key}] without a dominating check_duplicate_name over the shared tables")
     # check_duplicate_name itself: compares against every entry of every namespace and raises
     cd = prog.func(PAR, "Parser.check_duplicate_name")
-    loops = [n for n in walk_local(cd.node) if isinstance(n, ast.For)]
-    okcd = len(loops) == 2 and norm(loops[0].iter) == "namespaces" and any(isinstance(s, ast.Raise) and "DuplicateNameError" in norm(s) for s in walk_local(cd.node)) \
-        and not any(isinstance(s, (ast.Break, ast.Continue, ast.Return)) for s in walk_local(cd.node))
+    # the scan may live in check_duplicate_name itself or in a helper it hands (name, namespaces) to
+    ty = Types(prog)
+    scan_units = [(cd, {p_: p_ for p_ in cd.params()})]
+    for c_ in calls_in(cd.node):
+        st_, fi_, _d = ty.callee(cd, c_)
+        if fi_ is not None and fi_.module.name == PAR and prog.is_expanded_helper(fi_):
+            b_ = callgraph.bind_args(fi_, c_, bound_method=isinstance(c_.func, ast.Attribute))
+            scan_units.append((fi_, {p_: path_of(a_) for p_, a_ in b_.items() if path_of(a_)}))
+    okcd, scan_fn, match_if = False, None, None
+    for fu, binding in scan_units:
+        for l1 in [n for n in walk_local(fu.node) if isinstance(n, ast.For) and isinstance(n.target, ast.Name) and binding.get(norm(n.iter)) == "namespaces"]:
+            # `ns = getattr(self, namespace)` may name the table first
+            tabs = {n.targets[0].id: norm(n.value) for n in l1.body if isinstance(n, ast.Assign) and len(n.targets) == 1 and isinstance(n.targets[0], ast.Name)}
+            other = [n for n in l1.body if not (isinstance(n, ast.For) or (isinstance(n, ast.Assign) and len(n.targets) == 1 and isinstance(n.targets[0], ast.Name)
+                                                                        and norm(n.value) == f"getattr(self, {l1.target.id})"))]
+            def iter_text(n, tabs=tabs):
+                t = norm(n.iter)
+                for k_, v_ in tabs.items():
+                    if t.startswith(k_ + "."):
+                        t = v_ + t[len(k_):]
+                return t
+
+            for l2 in [n for n in l1.body if isinstance(n, ast.For) and isinstance(n.target, ast.Name) and not other
+                       and iter_text(n) in (f"getattr(self, {l1.target.id}).values()", f"self.__dict__[{l1.target.id}].values()")]:
+                ifs = [n for n in l2.body if isinstance(n, ast.If) and isinstance(n.test, ast.Compare) and len(n.test.ops) == 1 and isinstance(n.test.ops[0], ast.Eq)
+                       and {binding.get(norm(n.test.left), norm(n.test.left)), binding.get(norm(n.test.comparators[0]), norm(n.test.comparators[0]))} == {"name", f"{l2.target.id}.name"} and not n.orelse]
+                # nothing else in the two loops skips entries
+                stray = [x for x in list(walk_local(l1)) if isinstance(x, (ast.Break, ast.Continue, ast.Return, ast.Raise)) and not any(a is i_ for i_ in ifs for a in ancestors(x))]
+                if len(ifs) == 1 and not stray and len([n for n in l1.body if isinstance(n, ast.For)]) == 1 and len(l2.body) == 1:
+                    okcd, scan_fn, match_if = True, fu, ifs[0]
+    if okcd:
+        hit = match_if.body[-1]
+        raises_here = isinstance(hit, ast.Raise) and "DuplicateNameError" in norm(hit)
+        if not raises_here:
+            # the helper reports the match (a non-None value); the caller must raise for every non-None result
+            okcd = isinstance(hit, ast.Return) and hit.value is not None and not (isinstance(hit.value, ast.Constant) and hit.value.value is None) and scan_fn is not cd
+            if okcd:
+                cg_ = C.build(cd.node)
+                cgs_ = flow.guard_states(cg_)
+                resv = [path_of(n.targets[0]) for n in walk_local(cd.node) if isinstance(n, ast.Assign) and isinstance(n.value, ast.Call) and ty.callee(cd, n.value)[1] is scan_fn]
+                okcd = len(resv) == 1 and resv[0] is not None
+                if okcd:
+                    # every normal exit of check_duplicate_name implies the result was None
+                    for e_ in cg_.pred[cg_.exit.id]:
+                        if e_.kind == "exc":
+                            continue
+                        if guards.any_path_implies(cgs_.after_edge(e_), guards.parse(f"{resv[0]} is None")):
+                            okcd = False
+                    okcd = okcd and any(isinstance(s_, ast.Raise) and "DuplicateNameError" in norm(s_) for s_ in walk_local(cd.node))
     N.decide(okcd, fkey(cd, "exhaustive"), where(cd), "walks every namespace and every entry, raises DuplicateNameError on equality, no early exit",
              "check_duplicate_name no longer compares against every entry of every namespace")
 
@@ -160,9 +207,15 @@ def run(prog: Program, chk: Check):
                  "a skipped duplicate or range test lets two definitions share an id or an id leave its range")
 
     def validator_shape(f, table, err, value_name):
-        """f contains: for x in self.<table>.values(): if <value> == x.value: raise <err>; and a range test raising RTMASyntaxError."""
+        """The whole-registry duplicate test of f, in any of its spellings, as the set of CFG edges that certify
+        "no entry of self.<table> has this value":
+          for x in self.T.values(): if V == x.value: raise E            -> the loop's exhaustion edge
+          x = next((m for m in self.T.values() if V == m.value), None); if x is not None: raise E   -> the `x is None` edge
+          if any(V == m.value for m in self.T.values()): raise E        -> the false edge
+        and the range test (an ordering comparison on V guarding a raise of RTMASyntaxError)."""
         fg = C.build(f.node)
-        res = {"loop": None, "range": None}
+        cmf = guards.copy_map(f.node)
+        res = {"loop": None, "range": None, "pass_edges": set(), "cfg": fg}
         for lp in walk_local(f.node):
             if isinstance(lp, ast.For) and norm(lp.iter) == f"self.{table}.values()" and isinstance(lp.target, ast.Name):
                 x = lp.target.id
@@ -173,10 +226,48 @@ def run(prog: Program, chk: Check):
                             {norm(t.test.left), norm(t.test.comparators[0])} == {value_name, f"{x}.value"} and \
                             any(isinstance(s, ast.Raise) and err in norm(s) for s in t.body) and not early and t is lp.body[0]:
                         res["loop"] = lp
+                        res["pass_edges"] |= {(n.id, "done") for n in fg.nodes if n.kind == "for" and n.ast is lp}
+
+        def scans_table(comp) -> bool:
+            """comprehension / generator over every entry of the table, selecting those whose .value equals V"""
+            if not isinstance(comp, (ast.GeneratorExp, ast.ListComp, ast.SetComp)) or len(comp.generators) != 1:
+                return False
+            gen = comp.generators[0]
+            if norm(gen.iter) != f"self.{table}.values()" or not isinstance(gen.target, ast.Name):
+                return False
+            x = gen.target.id
+            eqs = [c for c in list(gen.ifs) + [comp.elt] if isinstance(c, ast.Compare) and len(c.ops) == 1 and isinstance(c.ops[0], ast.Eq)
+                   and {norm(c.left), norm(c.comparators[0])} == {value_name, f"{x}.value"}]
+            return len(eqs) == 1 and len(gen.ifs) <= 1 and (bool(gen.ifs) or eqs[0] is comp.elt)
+
+        for n in walk_local(f.node):
+            # x = next((m for m in T.values() if V == m.value), None)
+            if isinstance(n, ast.Assign) and len(n.targets) == 1 and isinstance(n.targets[0], ast.Name) and isinstance(n.value, ast.Call) and isinstance(n.value.func, ast.Name) \
+                    and n.value.func.id == "next" and len(n.value.args) == 2 and isinstance(n.value.args[1], ast.Constant) and n.value.args[1].value is None and scans_table(n.value.args[0]) \
+                    and n.value.args[0].generators[0].ifs:
+                xv = n.targets[0].id
+                for t in [t for t in fg.nodes if t.kind == "test" and xv in flow.access_paths(t.ast)]:
+                    for e in fg.succ[t.id]:
+                        if e.cond is not None and guards.implies([(e.cond, e.pol)], guards.parse(f"{xv} is None")):
+                            other = [e2 for e2 in fg.succ[t.id] if e2 is not e and e2.kind != "exc"]
+                            if other and all(any(isinstance(s, ast.Raise) and err in norm(s) for s in walk_local(b)) for b in [fg.nodes[o.dst].ast for o in other] if b is not None):
+                                res["pass_edges"].add((t.id, e.kind))
+                                res["loop"] = res["loop"] or n
+            # if any(V == m.value for m in T.values()): raise E
+        for t in [t for t in fg.nodes if t.kind == "test"]:
+            for c in [c for c in ast.walk(t.ast) if isinstance(c, ast.Call) and isinstance(c.func, ast.Name) and c.func.id == "any" and len(c.args) == 1 and scans_table(c.args[0])]:
+                for e in fg.succ[t.id]:
+                    if e.cond is not None and guards.implies([(e.cond, e.pol)], guards.parse(f"not {norm(c)}")):
+                        other = [e2 for e2 in fg.succ[t.id] if e2 is not e and e2.kind != "exc"]
+                        if other and all(any(isinstance(s, ast.Raise) and err in norm(s) for s in walk_local(b)) for b in [fg.nodes[o.dst].ast for o in other] if b is not None):
+                            res["pass_edges"].add((t.id, e.kind))
+                            res["loop"] = res["loop"] or c
         for t in walk_local(f.node):
-            if isinstance(t, ast.If) and value_name in flow.access_paths(t.test) and any(isinstance(c, ast.Compare) and isinstance(c.ops[0], (ast.Lt, ast.Gt, ast.LtE, ast.GtE)) for c in ast.walk(t.test)):
-                if any(isinstance(s, ast.Raise) and "RTMASyntaxError" in norm(s) for s in walk_local(t)):
-                    res["range"] = t
+            if isinstance(t, ast.If):
+                tt = guards.subst(t.test, cmf)  # `in_core_range = value < 10 and value != 0` is looked through
+                if value_name in flow.access_paths(tt) and any(isinstance(c, ast.Compare) and isinstance(c.ops[0], (ast.Lt, ast.Gt, ast.LtE, ast.GtE)) for c in ast.walk(tt)):
+                    if any(isinstance(s, ast.Raise) and "RTMASyntaxError" in norm(s) for s in walk_local(t)):
+                        res["range"] = t
         return res
 
     vmi = prog.func(PAR, "Parser.validate_msg_id")
@@ -204,13 +295,14 @@ def run(prog: Program, chk: Check):
                 else:
                     vp = [p for p in f.params() if p != "self"][-1]
                     shp = validator_shape(f, table, err, vp)
-                    lpn = [x for x in fg.nodes if x.kind == "for" and x.ast is shp["loop"]] if shp["loop"] is not None else []
-                    rgn = [x for x in fg.nodes if x.kind == "test" and shp["range"] is not None and x.ast is shp["range"].test]
-                    okv = bool(lpn) and bool(rgn) and not flow.must_precede(fg, lpn, [n]) and not flow.must_precede(fg, rgn, [n])
-                    # loop must be exhausted before the store
+                    fg2 = shp["cfg"]
+                    n2 = next((x for x in fg2.nodes if x.ast is n.ast and x.kind == n.kind), None)
+                    rgn = [x for x in fg2.nodes if x.kind == "test" and shp["range"] is not None and x.ast is shp["range"].test]
+                    okv = bool(shp["pass_edges"]) and bool(rgn) and n2 is not None and not flow.must_precede(fg2, rgn, [n2])
+                    # the store is reachable only across an edge that certifies "no entry has this value"
                     if okv:
-                        r = flow.reach(fg, [fg.entry.id], follow=lambda e: not (e.src == lpn[0].id and e.kind == "done"))
-                        okv = n.id not in r
+                        r = flow.reach(fg2, [fg2.entry.id], follow=lambda e: (e.src, e.kind) not in shp["pass_edges"])
+                        okv = n2.id not in r
                     stored_val = any(vp in flow.access_paths(a) for a in (val.args if isinstance(val, ast.Call) else []))
                     I.decide(okv and stored_val, fkey(f, n.ast), where(f, n.ast), f"duplicate loop ({err}) and range test dominate the store of `{vp}`",
                              f"{f.qual} registers into {table} without the exhausted duplicate loop raising {err} / the range test on `{vp}`")
